@@ -87,7 +87,7 @@ pub struct Plan {
 /// A scheduler action. `Resume(w)`: the task parked on worker w runs to its next yield.
 /// `Dispatch(w)`: the next not-yet-started task starts on idle worker w. `Replace(w)`: idle
 /// worker w's OS thread is retired and a new one takes the slot. `Restart`: new `Globals` epoch.
-#[derive(Clone, Copy, Debug, PartialEq, Eq, Hash)]
+#[derive(Clone, Copy, Debug, PartialEq, Eq, Hash, Serialize, Deserialize)]
 pub enum Action {
     Resume(u8),
     Dispatch(u8),
